@@ -49,6 +49,10 @@ pub fn instantiate(
     // add all voters
     for voter in msg.voters.iter() {
         let key = deps.api.addr_validate(&voter.addr)?;
+        // a repeated address would be counted twice in total_weight but stored only once
+        if VOTERS.has(deps.storage, &key) {
+            return Err(ContractError::DuplicateVoter {});
+        }
         VOTERS.save(deps.storage, &key, &voter.weight)?;
     }
     Ok(Response::default())
